@@ -14,17 +14,19 @@ Variable hex : bool.
 Hypothesis Hud : ud_ok ud.
 Hypothesis Horacle : oracle_ok fmt prs.
 
-Theorem parse_write : forall f, wf_file f ->
+Notation up := (peek_digits ud).
+
+Theorem parse_write : forall f, wf_file up f ->
   parse ud prs hex (write fmt hex f) = OOk (norm_file fmt hex f).
 Proof.
   intros f Hwf. unfold write.
-  pose proof (lex_print_tokens ud Hud (w_file fmt hex f) (pok_file fmt prs hex Horacle f Hwf)) as HL.
+  pose proof (lex_print_tokens ud Hud (w_file fmt hex f) (pok_file up (peek_digits_ok ud Hud) fmt prs hex Horacle f Hwf)) as HL.
   unfold tokens_of_text in HL. unfold parse.
   destruct (lex ud (render (w_file fmt hex f))) as [raw|]; [|discriminate].
   cbn [option_map] in HL.
   assert (HT : map strip (pfilter raw) = toks_of (w_file fmt hex f) ++ [eof_tok]) by congruence.
   clear HL. unfold parse_tokens. rewrite HT.
-  destruct (parse_write_tokens fmt prs hex Horacle f Hwf) as [items [HP HA]].
+  destruct (parse_write_tokens up fmt prs hex Horacle f Hwf) as [items [HP HA]].
   change {| fl_ver := false; fl_ns := false; fl_bu := false |} with fl0. unfold tok, str in *. rewrite HP, HA. reflexivity.
 Qed.
 
@@ -51,7 +53,7 @@ Proof.
 Qed.
 
 (* the form of the property statement: parse (write f) = Ok f' with f' equivalent to f *)
-Corollary parse_write_equiv : forall f, wf_file f ->
+Corollary parse_write_equiv : forall f, wf_file up f ->
   exists f', parse ud prs hex (write fmt hex f) = OOk f' /\ equiv f' f.
 Proof.
   intros f Hwf. exists (norm_file fmt hex f). split; [apply parse_write; exact Hwf|].
